@@ -31,6 +31,27 @@ def p_c11(run):
     run.notes.append("each script executed in separate processes with different stack pre-fill (DRIVER_STACKFILL), "
                      "MALLOC_PERTURB_, compilers and optimisation levels, and under MemorySanitizer; every result line "
                      "must equal the deterministic model's")
+    # the C++ port too: the Arduino classes, run with different stack pre-fills, must equal their deterministic model (a class
+    # that computes from a local it did not initialise gives different results from run to run)
+    drv = build_arduino(run, "g++", "-O2", ())
+    import random
+    arng = random.Random("C11/arduino/%s/%d" % (run.tier, run.seed))
+    for cls, ascript, cscript, pairs, refs in G.gen_c19(arng, run.tier):
+        m = subprocess.run([run.model, "--arduino", "/dev/stdin"], input=ascript, capture_output=True, text=True, timeout=600)
+        if m.returncode != 0 or "MODEL-UNDEFINED" in m.stdout:
+            raise RuntimeError("harness error: arduino model rejected the script: " + m.stderr[-300:])
+        for fill in ("0", "165", "255"):
+            run.stats["scripts"] += 1; run.stats["variants"].add("arduino-g++-O2 stackfill=" + fill)
+            p = subprocess.run([drv], input=ascript, capture_output=True, text=True, timeout=600,
+                               env=dict(os.environ, DRIVER_STACKFILL=fill))
+            run.stats["ops"] += len(ascript.splitlines()); run.stats["oracle_checks"] += 1
+            d = C.first_diff(p.stdout, m.stdout) if p.returncode == 0 else (0, "driver exit %d" % p.returncode, "")
+            if d is not None:
+                run.add_violation({"property": "C11", "kind": "arduino", "class": cls, "stackfill": fill,
+                                   "what": "Arduino class %s with stack pre-fill %s disagrees with its deterministic model: library `%s` / model `%s`"
+                                           % (cls, fill, str(d[1])[:150], str(d[2])[:150]),
+                                   "arduino_script": ascript.splitlines()})
+                break
 
 # ---------------------------------------------------------------- C12
 def p_c12(run):
